@@ -45,6 +45,7 @@ func (fr *Frame) nilCheck(a *Addr, pos token.Pos, what string) {
 
 func (fr *Frame) instr(in ssa.Instruction, h Heap) Heap {
 	g := fr.g
+	fr.curInstr = in
 	switch x := in.(type) {
 	case *ssa.DebugRef:
 		return h
@@ -213,6 +214,7 @@ func (fr *Frame) instr(in ssa.Instruction, h Heap) Heap {
 		for _, a := range x.Common().Args {
 			fr.val(a)
 		}
+		fr.goStmt(x, h)
 		return h
 	case *ssa.Defer:
 		fr.defers = append(fr.defers, x)
@@ -238,7 +240,17 @@ func (fr *Frame) instr(in ssa.Instruction, h Heap) Heap {
 		return h
 	case *ssa.Select:
 		// nondeterministic choice; received values unconstrained
-		fr.vals[x] = fr.symbolic("select_"+x.Name(), x.Type())
+		sv := fr.symbolic("select_"+x.Name(), x.Type())
+		fr.vals[x] = sv
+		if len(sv.Tup) > 0 {
+			// the chosen case index is one of the cases (or -1 for a non-blocking select)
+			lo := int64(0)
+			if !x.Blocking {
+				lo = -1
+			}
+			idx := sv.Tup[0].T
+			fr.assume(and(g.ile(g.ilit(lo), idx), g.ilt(idx, g.ilit(int64(len(x.States))))), "select chooses one of its cases")
+		}
 		return h
 	case *ssa.Send:
 		return h
